@@ -90,6 +90,7 @@ struct E5 : Engine {
 			p["enc"] = encs[r.below(13)]; p["key_seed"] = (int)r.below(1000); p["timeout"] = 10 + (int)r.below(3000);
 			if(r.below(6) == 0){ J uf = J::arr(); int n = 1 + (int)r.below(3); for(int k=0;k<n;k++) uf.push((int)r.below(r.below(2) ? 4 : 30)); p["urandom_fail"] = uf; }   // no entropy: open("/dev/urandom") fails at these calls (descriptor exhaustion)
 			p["strategy"] = (int)r.below(3); p["pct_depth"] = 1 + (int)r.below(3); p["pct_len"] = 20 + (int)r.below(400);
+			if(r.below(3) == 0){ p["p_file_short"] = 50 + (int)r.below(600); p["p_file_eintr"] = r.below(2) ? (int)r.below(200) : 0; }   // the entropy source delivers fewer bytes than asked for / is interrupted (legal for /dev/urandom): IVs must still be random
 #if defined(VERIF_TSAN_VARIANT)
 			bool race = true;    // the TSan build runs only the scenario that has threads in it
 #else
@@ -112,7 +113,10 @@ struct E5 : Engine {
 		p["timeout"] = 5 + (int)r.below(r.below(2) ? 40 : 4000); p["client_size_limit"] = (int)(r.below(2) ? 30 + r.below(200) : 2048); p["remove_unknown"] = (int)r.below(2);
 		p["p_file_short"] = r.below(4) == 0 ? (int)r.below(300) : 0; p["p_file_eintr"] = r.below(4) == 0 ? (int)r.below(100) : 0;
 		bool net_faults = p.gets("storage") == "network" && r.below(2);   // resets of the storage connection, at most one per request (sequential plans only)
-		int nb = 1 + r.below(3); p["browsers"] = nb; p["conc"] = (int)(nb > 1 && r.below(3) == 0); p["reuse"] = (int)(!p.geti("conc") && r.below(4) == 0);   // one long-lived session_interface re-targeted to each request with set_cookie_adapter_and_reload() p["strategy"] = (int)r.below(3); p["pct_depth"] = 1 + (int)r.below(3); p["pct_len"] = 50 + (int)r.below(2000);
+		int nb = 1 + r.below(3); p["browsers"] = nb; p["conc"] = (int)(nb > 1 && r.below(3) == 0); p["reuse"] = (int)(!p.geti("conc") && r.below(4) == 0);   /* reuse: one long-lived session_interface re-targeted to each request with set_cookie_adapter_and_reload() */ p["strategy"] = (int)r.below(3); p["pct_depth"] = 1 + (int)r.below(3); p["pct_len"] = 50 + (int)r.below(2000);
+		// twin: several concurrent requests of ONE browser (tabs / parallel asynchronous calls presenting the same session cookie) plus gc, all scheduled threads
+		if(r.below(8) == 0){ p["twin"] = 1; p["location"] = "server"; static const char *ts[] = {"files","files","files","memory","network"}; p["storage"] = ts[r.below(5)]; p["flock"] = (int)r.below(2); p["tabs"] = 2 + (int)r.below(2); p["timeout"] = 1000 + (int)r.below(100000);
+			J tr = J::arr(); int nt = 2 + r.below(6); for(int i=0;i<nt;i++){ J q = J::obj(); q["tab"] = (int)r.below(3); q["len"] = (int)(r.below(3) == 0 ? r.below(3000) : r.below(40)); q["ro"] = (int)(r.below(4) == 0); tr.push(q); } p["treqs"] = tr; p["gcs"] = (int)r.below(3); }
 		J reqs = J::arr(); int n = 2 + r.below(thorough ? 30 : 12);
 		for(int i=0;i<n;i++){ J q = J::obj(); unsigned x = r.below(100);
 			if(x < 12){ q["kind"] = "tick"; unsigned y = r.below(10); int to = (int)p.geti("timeout"); q["s"] = y < 4 ? (int)r.below(to/10+2) : y < 7 ? (int)r.below(to) : y < 9 ? to + (int)r.below(3) - 1 : (int)r.below(10*to); }
@@ -267,6 +271,47 @@ struct E5 : Engine {
 	}
 	static std::string b64(const std::string &in){ static const char *al = "ABCDEFGHIJKLMNOPQRSTUVWXYZabcdefghijklmnopqrstuvwxyz0123456789-_"; std::string o; uint32_t acc = 0; int bits = 0; for(unsigned char c:in){ acc = (acc << 8) | c; bits += 8; while(bits >= 6){ bits -= 6; o += al[(acc >> bits) & 63]; } } if(bits) o += al[(acc << (6-bits)) & 63]; return o; }
 
+	// ============================================================ C06, concurrent requests of one browser
+	// Tabs present the same session cookie at the same time. The storage serialises access per session, so the session behaves as a regular register: a request
+	// loads the state written by some request whose save had started before the load ended and that was not surely overwritten (by a save that started after it
+	// had completed and completed before the load started). Nothing ends the session here (no clear, no reset, deadlines far away): a load that finds nothing, or a
+	// state nobody wrote, or a change of the session id, is a violation. gc runs concurrently and must leave the live session alone.
+	void run_twin(const J &plan,RunResult &res,std::map<std::string,int64_t> &cnt,cppcms::session_pool &pool,SpyFactory *spyf,std::set<std::string> &live_sids){
+		typedef std::map<std::string,std::string> St; struct Sv { uint64_t st, en; St data; };
+		std::vector<Sv> saves; saves.reserve(64); uint64_t ev = 0; cnt["twin_runs"]++;
+		Jar j0; j0.begin_request(); St base; { session_interface s(pool,j0); s.load(); s.set("base","b0"); s.save(); base["base"] = "b0"; }
+		if(!j0.jar.count(PREFIX) || j0.jar[PREFIX].value.size() != 33 || j0.jar[PREFIX].value[0] != 'I'){ res.fail("session-cookie-missing","twin: no server-side session cookie after the first request"); return; }
+		std::string cookie = j0.jar[PREFIX].value; { Sv f; f.st = ++ev; f.en = ++ev; f.data = base; saves.push_back(f); }
+		int tabs = (int)std::max<int64_t>(2,std::min<int64_t>(plan.geti("tabs",2),3)); const J &tr = plan.get("treqs");
+		auto tab = [&](int me){ Jar jar; jar.jar = j0.jar;
+			for(size_t ri=0;ri<tr.size() && ri<12 && res.ok;ri++){ const J &q = tr.a[ri]; if((int)(((q.geti("tab") % tabs) + tabs) % tabs) != me) continue;
+				std::string where = "twin req#" + std::to_string(ri) + " tab " + std::to_string(me); cnt["requests"]++; cnt["twin_requests"]++;
+				jar.begin_request(); session_interface s(pool,jar); bool loaded = false; uint64_t ls,le;
+				{ simk::TsanIgnore ign; ls = ++ev; }
+				try { loaded = s.load(); } catch(std::exception const &e){ res.fail("load-threw",where + ": load() threw " + e.what()); return; }
+				St got; { std::set<std::string> ks = s.key_set(); for(auto &k:ks) got[k] = s.get(k); }
+				{ simk::TsanIgnore ign; le = ++ev;
+				  if(!loaded || got.empty()){ res.fail("live-session-lost",where + ": load() found no session although nothing ended it (concurrent requests of one browser, " + plan.gets("storage") + (plan.geti("flock") ? ", file locks" : "") + ")"); return; }
+				  bool ok = false, overlapped = false; for(size_t i=0;i<saves.size() && !ok;i++){ const Sv &w = saves[i]; if(w.st >= le) continue; bool dead = false; for(size_t k=0;k<saves.size() && !dead;k++){ const Sv &w2 = saves[k]; if(w2.st > w.en && w2.en < ls) dead = true; } if(dead) continue; if(w.en > ls) overlapped = true; if(w.data == got) ok = true; }
+				  if(overlapped) cnt["twin_load_overlapping_save"]++;
+				  if(!ok){ std::string d; for(auto &kv:got) d += " " + kv.first + "=" + kv.second.substr(0,12) + "(" + std::to_string(kv.second.size()) + ")"; res.fail("session-data-mismatch",where + ": loaded a state that no request could have left there:" + d); return; } }
+				if(q.geti("ro")){ try { s.save(); } catch(std::exception const &e){ res.fail("save-threw",where + ": save() threw " + e.what()); return; } }
+				else { std::string val = wire::gen_bytes(ri*977+me,(size_t)std::max<int64_t>(0,std::min<int64_t>(q.geti("len"),5000)),1) + "#" + std::to_string(ri); s.set("tab" + std::to_string(me),val); got["tab" + std::to_string(me)] = val;
+					size_t idx; { simk::TsanIgnore ign; Sv w; w.st = ++ev; w.en = UINT64_MAX; w.data = got; saves.push_back(w); idx = saves.size()-1; }
+					try { s.save(); } catch(std::exception const &e){ res.fail("save-threw",where + ": save() threw " + e.what()); return; }
+					{ simk::TsanIgnore ign; saves[idx].en = ++ev; } }
+				jar.expire(); if(!jar.jar.count(PREFIX) || jar.jar[PREFIX].value != cookie){ res.fail("session-id-changed",where + ": the session cookie changed although the session was neither new nor reset"); return; }
+				if(!live_sids.count(cookie.substr(1))){ res.fail("session-not-stored",where + ": the live session's id is no longer in the storage"); return; } } };
+		std::vector<std::thread> thr; for(int t=0;t<tabs;t++) thr.emplace_back([&,t]{ tab(t); });
+		int gcs = (int)std::max<int64_t>(0,std::min<int64_t>(plan.geti("gcs"),4)); if(spyf && gcs) thr.emplace_back([&]{ for(int i=0;i<gcs;i++){ spyf->gc_job(); cnt["gc"]++; simk::yield(); } });
+		for(auto &t:thr) t.join();
+		if(!res.ok) return;
+		// afterwards, sequentially: the session holds the state of a save that no later save surely overwrote
+		{ Jar jar; jar.jar = j0.jar; jar.begin_request(); session_interface s(pool,jar); bool loaded = s.load(); St got; { std::set<std::string> ks = s.key_set(); for(auto &k:ks) got[k] = s.get(k); }
+		  bool ok = false; for(size_t i=0;i<saves.size() && !ok;i++){ bool dead = false; for(size_t k=0;k<saves.size();k++) if(saves[k].st > saves[i].en) dead = true; if(!dead && saves[i].data == got) ok = true; }
+		  if(!loaded || !ok) res.fail(loaded ? "session-data-mismatch" : "live-session-lost","twin: after all concurrent requests the session " + std::string(loaded ? "holds a state that is not the last one saved" : "is gone")); cnt["loads_live"]++; }
+	}
+
 	// ============================================================ C06
 	void run_c06(const J &plan,RunResult &res,std::map<std::string,int64_t> &cnt){
 		std::string location = plan.gets("location","server"); if(location != "client" && location != "both") location = "server";
@@ -277,7 +322,7 @@ struct E5 : Engine {
 		cppcms::session_pool pool(v);
 		SpyFactory *spyf = nullptr;
 		if(location != "client"){ std::unique_ptr<SpyFactory> f(new SpyFactory);
-			if(stor == "files"){ simk::fs_mkdir("/simfs/sessions"); f->inner.reset(new cppcms::sessions::session_file_storage_factory("/simfs/sessions",5,1,false)); }
+			if(stor == "files"){ simk::fs_mkdir("/simfs/sessions"); f->inner.reset(new cppcms::sessions::session_file_storage_factory("/simfs/sessions",5,1,plan.geti("flock") != 0)); if(plan.geti("flock")) cnt["file_lock_runs"]++; }
 			else if(stor == "network"){
 				// a real session storage server (tcp_cache_service with a memory storage behind it) on the simulated network
 				booster::shared_ptr<cppcms::sessions::session_storage_factory> backend(new cppcms::sessions::session_memory_storage_factory());
@@ -299,6 +344,7 @@ struct E5 : Engine {
 		int def_timeout = v.get<int>("session.timeout"); int def_how = mode_of(v.get<std::string>("session.expire")); size_t climit = (size_t)v.get<int>("session.client_size_limit");
 		auto now = []{ return simk::now_us()/1000000; };
 		const J &reqs = plan.get("reqs");
+		if(plan.geti("twin")){ run_twin(plan,res,cnt,pool,spyf,live_sids); if(res.ok && !bad_sids.empty()) res.fail("malformed-id-reached-storage","identifier not of the issued form was used to address the storage"); cnt["storage_calls"] = (int64_t)storage_calls; return; }
 		bool conc = plan.geti("conc") && nb > 1; int in_flight = 0;
 		bool reuse = plan.geti("reuse") && !conc; Jar nobody; std::unique_ptr<session_interface> shared_s; if(reuse) shared_s.reset(new session_interface(pool,nobody));
 		// me == -2: one thread runs everything in plan order; otherwise browser `me` runs its own requests and me == -1 (the
